@@ -37,6 +37,9 @@ pub enum SeedSpec {
     LengthChain { seed: u64 },
     /// many sample descriptions whose esds descriptor lengths reach beyond their box
     DescriptorChain { seed: u64 },
+    /// muxer output with samples whose moov also announces fragments (mvex), followed by
+    /// (moof + mdat) pairs that continue the tracks: what "ffmpeg -movflags frag_keyframe" writes
+    Hybrid { seed: u64 },
 }
 
 impl SeedSpec {
@@ -54,6 +57,7 @@ impl SeedSpec {
             SeedSpec::Scale { .. } => "scale",
             SeedSpec::LengthChain { .. } => "length_chain",
             SeedSpec::DescriptorChain { .. } => "descriptor_chain",
+            SeedSpec::Hybrid { .. } => "hybrid",
         }
     }
 }
@@ -468,79 +472,11 @@ pub fn meta_image(seed: u64) -> Vec<u8> {
     img
 }
 
-pub struct FragPlan {
-    pub ntracks: u32,
-    pub nfrags: u32,
-}
-
-/// ftyp + moov(+mvex) [+ emsg] + (moof + mdat)*; returns (bytes, init_len).
-pub fn frag_image(seed: u64) -> (Vec<u8>, usize) {
-    let mut r = Rng::new(seed ^ 0xF4A6);
-    let ntracks = 1 + r.below(2) as u32;
-    // init part from the real muxer: tracks without samples
-    let o = small_opts();
-    let kinds = [Kind::Avc, Kind::Aac, Kind::Hevc, Kind::Vp9, Kind::Ttxt];
-    let mut ops = Vec::new();
-    for _ in 0..ntracks {
-        let mut tc = gen_track_cfg(&mut r, &o, &kinds);
-        tc.timescale = *r.pick(&[1000u32, 90000, 48000, 1]);
-        ops.push(Op::AddTrack(tc));
-    }
-    ops.push(Op::End);
-    let sc = MuxScenario {
-        cfg: MovieCfg { major: *b"iso5", minor: 1, compat: vec![*b"iso5", *b"dash"], timescale: 1000 },
-        ops,
-        start_pos: 0,
-        io: IoKnobs::plain(),
-        preexisting: 0,
-        fault: None,
-    };
-    let base = mux_bytes(&sc);
-    let nodes = walk(&base);
-    let ftyp = nodes.iter().find(|n| n.depth == 0 && n.is(b"ftyp")).unwrap();
-    let moov = nodes.iter().find(|n| n.depth == 0 && n.is(b"moov")).unwrap();
-    let mut init = base[ftyp.start..ftyp.end()].to_vec();
-    let mut moov_b = base[moov.start..moov.end()].to_vec();
-    // mvex: optional mehd + one trex per track (the library keeps the last)
-    let mut mv = Vec::new();
-    if r.chance(1, 2) {
-        if r.chance(1, 2) {
-            mv.extend(full(b"mehd", 0, 0, &u32b(r.next_u32())));
-        } else {
-            mv.extend(full(b"mehd", 1, 0, &u64b(r.next_u64())));
-        }
-    }
-    let trex_dur = *r.pick(&[0u32, 512, 1000, 3000]);
-    for t in 1..=ntracks {
-        mv.extend(full(b"trex", 0, 0, &cat(&[&u32b(t), &u32b(1), &u32b(trex_dur), &u32b(0), &u32b(0)])));
-    }
-    let mvex = bx(b"mvex", &mv);
-    let newsize = (moov_b.len() + mvex.len()) as u32;
-    moov_b.extend_from_slice(&mvex);
-    moov_b[0..4].copy_from_slice(&newsize.to_be_bytes());
-    init.extend_from_slice(&moov_b);
-    let init_len = init.len();
-    let mut out = init;
-    if r.chance(1, 3) {
-        // emsg version 0 or 1
-        // emsg strings must be valid UTF-8 for the box to parse: keep seed images valid
-        let valid = |t: Vec<u8>| if std::str::from_utf8(&t).is_ok() { t } else { b"urn:y".to_vec() };
-        let mut scheme = if r.chance(1, 2) { b"urn:x".to_vec() } else { valid(g_text(&mut r)) };
-        scheme.retain(|b| *b != 0);
-        scheme.push(0);
-        let mut value = if r.chance(1, 2) { b"v".to_vec() } else { valid(g_text(&mut r)) };
-        value.retain(|b| *b != 0);
-        value.push(0);
-        let msg = if r.chance(1, 2) { b"payload".to_vec() } else { g_text(&mut r) };
-        if r.chance(1, 2) {
-            out.extend(full(b"emsg", 0, 0, &cat(&[&scheme, &value, &u32b(1000), &u32b(5), &u32b(10), &u32b(7), &msg])));
-        } else {
-            out.extend(full(b"emsg", 1, 0, &cat(&[&u32b(1000), &u64b(123456), &u32b(10), &u32b(7), &scheme, &value, &msg])));
-        }
-    }
+/// Appends 1..4 (moof + mdat) pairs for tracks 1..=ntracks; decode_time carries each track's
+/// running base media decode time.
+pub fn push_fragments(r: &mut Rng, out: &mut Vec<u8>, ntracks: u32, decode_time: &mut Vec<u64>) {
     let nfrags = 1 + r.below(4) as u32;
     let mut seq = 1u32;
-    let mut decode_time = vec![0u64; ntracks as usize];
     let mut stamp = 1u32;
     for _ in 0..nfrags {
         // which tracks appear in this fragment
@@ -692,6 +628,123 @@ pub fn frag_image(seed: u64) -> (Vec<u8>, usize) {
         }
         seq += 1;
     }
+}
+
+/// ftyp + mdat + moov(samples, + mvex) [moov moved first in half of the images] + (moof + mdat)*:
+/// a regular file whose tracks are continued by movie fragments.
+pub fn hybrid_image(seed: u64) -> Vec<u8> {
+    let mut r = Rng::new(seed ^ 0x4B1D);
+    let base = mux_bytes(&small_scenario(seed));
+    let nodes = walk(&base);
+    let moov = match nodes.iter().find(|n| n.depth == 0 && n.is(b"moov")) {
+        Some(m) => m,
+        None => return base,
+    };
+    if moov.end() != base.len() {
+        return base;
+    }
+    // per track: running decode time = the media duration the moov already describes
+    let mut decode_time = Vec::new();
+    for n in nodes.iter().filter(|n| n.is(b"mdhd")) {
+        let b = n.body();
+        let d = if base[b] == 1 { be64(&base, b + 4 + 8 + 8 + 4) } else { be32(&base, b + 4 + 4 + 4 + 4) as u64 };
+        decode_time.push(d);
+    }
+    let ntracks = decode_time.len() as u32;
+    if ntracks == 0 {
+        return base;
+    }
+    let mut mv = Vec::new();
+    let trex_dur = *r.pick(&[0u32, 512, 1000, 3000]);
+    for t in 1..=ntracks {
+        mv.extend(full(b"trex", 0, 0, &cat(&[&u32b(t), &u32b(1), &u32b(trex_dur), &u32b(0), &u32b(0)])));
+    }
+    let mvex = bx(b"mvex", &mv);
+    let mut out = base.clone();
+    out.extend_from_slice(&mvex);
+    let newsize = (moov.size + mvex.len()) as u32;
+    out[moov.start..moov.start + 4].copy_from_slice(&newsize.to_be_bytes());
+    if r.chance(1, 2) {
+        if let Some(re) = relocate_moov_first(&out) {
+            out = re;
+        }
+    }
+    push_fragments(&mut r, &mut out, ntracks, &mut decode_time);
+    out
+}
+
+pub struct FragPlan {
+    pub ntracks: u32,
+    pub nfrags: u32,
+}
+
+/// ftyp + moov(+mvex) [+ emsg] + (moof + mdat)*; returns (bytes, init_len).
+pub fn frag_image(seed: u64) -> (Vec<u8>, usize) {
+    let mut r = Rng::new(seed ^ 0xF4A6);
+    let ntracks = 1 + r.below(2) as u32;
+    // init part from the real muxer: tracks without samples
+    let o = small_opts();
+    let kinds = [Kind::Avc, Kind::Aac, Kind::Hevc, Kind::Vp9, Kind::Ttxt];
+    let mut ops = Vec::new();
+    for _ in 0..ntracks {
+        let mut tc = gen_track_cfg(&mut r, &o, &kinds);
+        tc.timescale = *r.pick(&[1000u32, 90000, 48000, 1]);
+        ops.push(Op::AddTrack(tc));
+    }
+    ops.push(Op::End);
+    let sc = MuxScenario {
+        cfg: MovieCfg { major: *b"iso5", minor: 1, compat: vec![*b"iso5", *b"dash"], timescale: 1000 },
+        ops,
+        start_pos: 0,
+        io: IoKnobs::plain(),
+        preexisting: 0,
+        fault: None,
+    };
+    let base = mux_bytes(&sc);
+    let nodes = walk(&base);
+    let ftyp = nodes.iter().find(|n| n.depth == 0 && n.is(b"ftyp")).unwrap();
+    let moov = nodes.iter().find(|n| n.depth == 0 && n.is(b"moov")).unwrap();
+    let mut init = base[ftyp.start..ftyp.end()].to_vec();
+    let mut moov_b = base[moov.start..moov.end()].to_vec();
+    // mvex: optional mehd + one trex per track (the library keeps the last)
+    let mut mv = Vec::new();
+    if r.chance(1, 2) {
+        if r.chance(1, 2) {
+            mv.extend(full(b"mehd", 0, 0, &u32b(r.next_u32())));
+        } else {
+            mv.extend(full(b"mehd", 1, 0, &u64b(r.next_u64())));
+        }
+    }
+    let trex_dur = *r.pick(&[0u32, 512, 1000, 3000]);
+    for t in 1..=ntracks {
+        mv.extend(full(b"trex", 0, 0, &cat(&[&u32b(t), &u32b(1), &u32b(trex_dur), &u32b(0), &u32b(0)])));
+    }
+    let mvex = bx(b"mvex", &mv);
+    let newsize = (moov_b.len() + mvex.len()) as u32;
+    moov_b.extend_from_slice(&mvex);
+    moov_b[0..4].copy_from_slice(&newsize.to_be_bytes());
+    init.extend_from_slice(&moov_b);
+    let init_len = init.len();
+    let mut out = init;
+    if r.chance(1, 3) {
+        // emsg version 0 or 1
+        // emsg strings must be valid UTF-8 for the box to parse: keep seed images valid
+        let valid = |t: Vec<u8>| if std::str::from_utf8(&t).is_ok() { t } else { b"urn:y".to_vec() };
+        let mut scheme = if r.chance(1, 2) { b"urn:x".to_vec() } else { valid(g_text(&mut r)) };
+        scheme.retain(|b| *b != 0);
+        scheme.push(0);
+        let mut value = if r.chance(1, 2) { b"v".to_vec() } else { valid(g_text(&mut r)) };
+        value.retain(|b| *b != 0);
+        value.push(0);
+        let msg = if r.chance(1, 2) { b"payload".to_vec() } else { g_text(&mut r) };
+        if r.chance(1, 2) {
+            out.extend(full(b"emsg", 0, 0, &cat(&[&scheme, &value, &u32b(1000), &u32b(5), &u32b(10), &u32b(7), &msg])));
+        } else {
+            out.extend(full(b"emsg", 1, 0, &cat(&[&u32b(1000), &u64b(123456), &u32b(10), &u32b(7), &scheme, &value, &msg])));
+        }
+    }
+    let mut decode_time = vec![0u64; ntracks as usize];
+    push_fragments(&mut r, &mut out, ntracks, &mut decode_time);
     (out, init_len)
 }
 
@@ -722,6 +775,7 @@ pub fn build(spec: &SeedSpec) -> SeedImage {
         }
         SeedSpec::LengthChain { seed } => SeedImage { bytes: length_chain_image(*seed), init_len: None },
         SeedSpec::DescriptorChain { seed } => SeedImage { bytes: descriptor_chain_image(*seed), init_len: None },
+        SeedSpec::Hybrid { seed } => SeedImage { bytes: hybrid_image(*seed), init_len: None },
         SeedSpec::Scale { seed } => {
             let (b, l) = scale_image(*seed);
             SeedImage { bytes: b, init_len: l }
@@ -745,7 +799,8 @@ pub fn gen_spec(r: &mut Rng) -> SeedSpec {
     if r.chance(1, 600) {
         return SeedSpec::DescriptorChain { seed: r.below(1 << 30) };
     }
-    match r.below(28) {
+    match r.below(30) {
+        28 | 29 => SeedSpec::Hybrid { seed: r.below(4096) },
         20..=25 => SeedSpec::Grammar { seed: r.below(1 << 40) },
         26 | 27 => SeedSpec::MuxShuffled { seed: r.below(4096) },
         0 | 1 => SeedSpec::Canned("minimal.mp4".into()),
@@ -1568,9 +1623,58 @@ mod chain_tests {
             // when nothing else is wrong with the image.
             match r {
                 Ok(r) => eprintln!("seed {seed}: n={} tracks={}", img.len(), r.tracks().len()),
-                Err(e) => assert!(format!("{e}").contains("avcC parameter set"), "seed {seed}: unexpected error {e}"),
+                Err(e) => {
+                    let m = format!("{e}");
+                    // avcC chains are stopped by fix ab3439b, hvcC chains by c3157f2 / bb01007
+                    assert!(m.contains("avcC parameter set") || m.contains("hvcC"), "seed {seed}: unexpected error {e}")
+                }
             }
         }
+    }
+}
+
+#[cfg(test)]
+mod hybrid_tests {
+    use super::*;
+    use std::io::Cursor;
+    /// A regular file continued by fragments: the samples of the moov keep their ids and
+    /// contents, the fragments add further samples after them.
+    #[test]
+    fn hybrid_images_extend_the_plain_file() {
+        let read = |img: &[u8]| {
+            let mut r = mp4::Mp4Reader::read_header(Cursor::new(img.to_vec()), img.len() as u64).unwrap();
+            let mut ids: Vec<u32> = r.tracks().keys().copied().collect();
+            ids.sort_unstable();
+            let mut v = Vec::new();
+            for t in ids {
+                let n = r.sample_count(t).unwrap();
+                let mut tv = Vec::new();
+                for k in 1..=n {
+                    // runs without per-sample sizes are not supported by the library (it reports
+                    // an error for their samples): keep a placeholder for those
+                    match r.read_sample(t, k) {
+                        Ok(Some(s)) => tv.push((s.bytes.to_vec(), s.start_time, s.duration, s.rendering_offset)),
+                        _ => tv.push((Vec::new(), u64::MAX, 0, 0)),
+                    }
+                }
+                v.push(tv);
+            }
+            v
+        };
+        let mut extended = 0;
+        for seed in 0..100u64 {
+            let plain = read(&mux_bytes(&small_scenario(seed)));
+            let hy = read(&hybrid_image(seed));
+            assert_eq!(plain.len(), hy.len(), "seed {seed}");
+            for (p, h) in plain.iter().zip(hy.iter()) {
+                assert!(h.len() >= p.len(), "seed {seed}");
+                assert_eq!(&h[..p.len()], &p[..], "seed {seed}: moov samples changed");
+                if h.len() > p.len() {
+                    extended += 1;
+                }
+            }
+        }
+        assert!(extended > 50, "only {extended} tracks were continued by fragments");
     }
 }
 
@@ -1580,7 +1684,7 @@ mod openrate_tests {
     use std::io::Cursor;
     #[test]
     fn open_rates_by_class() {
-        for class in ["mux", "reloc", "shuffled", "meta", "frag"] {
+        for class in ["mux", "reloc", "shuffled", "meta", "frag", "hybrid"] {
             let mut fails = std::collections::BTreeMap::new();
             let mut ok = 0;
             for seed in 0..300u64 {
@@ -1589,6 +1693,7 @@ mod openrate_tests {
                     "reloc" => SeedSpec::MuxReloc { seed },
                     "shuffled" => SeedSpec::MuxShuffled { seed },
                     "meta" => SeedSpec::Meta { seed },
+                    "hybrid" => SeedSpec::Hybrid { seed },
                     _ => SeedSpec::Frag { seed },
                 };
                 let img = build(&spec).bytes;
